@@ -6,6 +6,7 @@ All statements are about the definitions in `Clem.Model.Sched` that the driver e
 and the monitors `pickB`, `isLeastB`, `gapsOkB`, `consecOkB`, `yieldSpecB`).
 -/
 import Clem.Proofs.Sched
+import Clem.Proofs.SchedT1
 
 namespace Clem.Props.C17
 
@@ -312,7 +313,7 @@ example : firstYield ⟨some 50, none, none, none, some 1, some 20⟩
     [(.T1, ⟨some 0, some 0, some 0, none, none⟩), (.T2, ⟨some 5, none, none, some 0, none⟩),
      (.T3, ⟨some 60, none, none, none, some 1⟩)] = some (.T3, .wall) := by decide
 
-/-! ## 5. Slice budgets clamp stage caps — per graph only -/
+/-! ## 5. Slice budgets bind the stage's reported work (totals over all active graphs) -/
 
 /-- the stage-side clamp `min(base, int(slice))`: the effective cap never exceeds the slice budget
 nor the configured cap -/
@@ -321,22 +322,84 @@ theorem C17_Clamp_le (base v : Int) : clampCap base (some v) ≤ v ∧ clampCap 
 
 theorem C17_Clamp_absent (base : Int) : clampCap base none = base := rfl
 
-/-
-Full statement wanted ("slice budgets clamp stage work": total T1 pops of a turn ≤ `t1_pops`):
-    ∀ per-graph pops ps, (∀ p ∈ ps, p ≤ clampCap qb (some budget)) → ps.sum ≤ budget
-It is false for the code as written: `t1_propagate` applies the clamp to every active graph
-separately and reports the SUM; `_should_yield` tests the sum for equality with the budget.
--/
-/-- per graph the clamp binds (what is provable) -/
-theorem C17_Budgets_bind_partial (qb budget : Int) (ps : List Int)
+/-- per graph the clamp binds -/
+theorem C17_Budgets_bind_per_graph (qb budget : Int) (ps : List Int)
     (h : ∀ p ∈ ps, p ≤ clampCap qb (some budget)) : ∀ p ∈ ps, p ≤ budget :=
   fun p hp => Int.le_trans (h p hp) (C17_Clamp_le qb budget).1
 
-/-- negation witness: two graphs, `t1_pops = 1`: each graph respects the clamp, the total is 2, and
-the yield test (equality) does not fire. -/
-theorem C17_Budget_total_exceeds_witness :
+/-- why the clamp alone is not enough (the defect repaired by
+`fix: T1 slice budgets t1_pops/t1_iters bind the stage totals`): clamping every graph by the whole
+budget lets the reported total exceed it, and the equality test of `_should_yield` then never fires. -/
+theorem C17_Per_graph_clamp_alone_insufficient :
     ∃ (qb budget : Int) (ps : List Int), (∀ p ∈ ps, p ≤ clampCap qb (some budget)) ∧ ¬ ps.sum ≤ budget ∧
       shouldYield ⟨none, none, some budget, none, none, some 1000⟩ ⟨some 0, some 0, some ps.sum, none, none⟩ = none :=
   ⟨10000, 1, [1, 1], by decide, by decide, by decide⟩
+
+section T1
+open Clem.T1
+variable {α : Type} [Clem.T1.Num α]
+
+/-- **Budgets_bind (T1 pops, full strength)**: on the exact model of `t1_propagate`
+(`Clem.T1.t1`: any configuration, any number of active graphs incl. repeated ids, result cache on or
+off, any text) the total `pops` the stage reports — the quantity `_should_yield` compares with the
+budget — never exceeds a non-negative slice budget `t1_pops`: every graph runs under what the earlier
+graphs left (`leftCfg`). -/
+theorem C17_Budgets_bind_t1_pops (c : Clem.T1.Cfg α) (gs : List (Clem.T1.Graph α)) (text : List Nat) (s : Int)
+    (hs : c.slicePops = some s) (h0 : 0 ≤ s) : ((Clem.T1.t1 c gs text).pops : Int) ≤ s :=
+  (foldl_inv c text gs tot0 (tot0_inv c)).pops s hs h0
+
+/-- **Budgets_bind (T1 layers, full strength)**: the same for the total `iters` and `t1_iters`. -/
+theorem C17_Budgets_bind_t1_iters (c : Clem.T1.Cfg α) (gs : List (Clem.T1.Graph α)) (text : List Nat) (s : Int)
+    (hs : c.sliceIters = some s) (h0 : 0 ≤ s) : (Clem.T1.t1 c gs text).iters ≤ s :=
+  (foldl_inv c text gs tot0 (tot0_inv c)).iters s hs h0
+
+omit [Clem.T1.Num α] in
+/-- without a slice budget nothing changes: every graph runs under the configured caps -/
+theorem C17_No_slice_budget_unchanged (c : Clem.T1.Cfg α) (t : Clem.T1.Tot α)
+    (hp : c.slicePops = none) (hi : c.sliceIters = none) : leftCfg c t = c := by
+  cases c; simp_all [leftCfg]
+
+/-- each graph's own clamp: what a graph adds is within the caps left for it -/
+theorem C17_Budgets_bind_t1_graph (c : Clem.T1.Cfg α) (g : Clem.T1.Graph α) (text : List Nat) :
+    ((oneGraph c g text).pops : Int) ≤ imax (effQueue c) 0 ∧ (oneGraph c g text).iters ≤ imax (effLayers c) 0 := by
+  have h := oneGraph_EOK c g text
+  have hc := oneGraph_caps c g text
+  unfold EOK at h
+  rw [hc.1, hc.2] at h
+  exact h
+
+end T1
+
+/-- non-vacuity: a configuration with both slice budgets set (the two-graph run with `t1_pops = 1` that
+pops once in total is the kernel-evaluated `example` next to `C12_multi_concat`). -/
+def exT1Cfg : Clem.T1.Cfg Int where
+  queueBudget := 10
+  nodeBudget := 5
+  radiusCap := 4
+  iterCap := 50
+  iterCapLayers := 50
+  relaxCap := none
+  sliceIters := some 1
+  slicePops := some 1
+  perfEnabled := false
+  metricsEnabled := false
+  frontierCap := 0
+  visitedCap := 0
+  dedupeWindow := 0
+  decay := none
+  edgeMult := []
+  eps := 0
+  cacheOn := true
+
+example : ((Clem.T1.t1 exT1Cfg [] []).pops : Int) ≤ 1 :=
+  C17_Budgets_bind_t1_pops exT1Cfg [] [] 1 rfl (by decide)
+
+/-- once the total reaches the budget the boundary decision fires (no wall hit, no layer hit before it) -/
+theorem C17_Budget_total_reached_yields (b : Budgets) (c : Consumed) (v : Int)
+    (hb : b.t1Pops = some v) (hc : c.t1Pops = some v) (hw : wallHit b c = false)
+    (hi : hitEq b.t1Iters c.t1Iters = false) : shouldYield b c = some .t1Pops := by
+  have hp : hitEq b.t1Pops c.t1Pops = true := by simp [hb, hc, hitEq]
+  unfold shouldYield
+  simp [hw, hi, hp]
 
 end Clem.Props.C17
